@@ -330,6 +330,9 @@ func (r *Raft) onInstallSnapRequest(req *installSnapReq, c *conn) (rpcResult, er
 		}
 	}
 	if discardLog {
+		// fsm might not have applied yet, all that is committed. it reads
+		// them from a view of the log. so wait for that, before the log is reset
+		_ = r.lastApplied()
 		if err = r.storage.clearLog(); err != nil {
 			return unexpectedErr, err
 		}
